@@ -49,5 +49,36 @@ Proof. exact design_side_estimate_agrees. Qed.
 Print Assumptions C06_posterior_variance_closed_form.
 Print Assumptions C06_totals_row_order_irrelevant.
 Print Assumptions C06_summary_order.
+(* ---- on the code.  TBRMMDiagnostics.tbrfit is regenerated from tbrmmdiagnostics.py on every run (gen/Gen_Formulas.v);
+   over the rationals, fed with the pre-period fit of the model (slope, residual variance, np.var(x, ddof=0) = Sxx / n) and
+   any square-root oracle exact on its one argument, its estimate is the analysis side's cumulative effect and the square
+   of its scale is the analysis side's posterior variance; the half-width is the t-quantile times that scale *)
+From MM Require Import lib.Values gen.Gen_Formulas proofs.FormulasBridge.
+Theorem C06_translated_design_side_estimate_is_the_analysis_estimate :
+  forall (vsqrt : Q -> Q) (d test : list pt) b sigma var_x tqs,
+    ~ nQ d == 0 -> ~ nQ test == 0 -> b == slope d ->
+    fit_estimate_of (gen_tbrfit QOps vsqrt (Z.of_nat (length test)) (Z.of_nat (length d)) (xbar d) (ybar d) b sigma var_x tqs
+                                (Sx test / nQ test) (Sy test / nQ test))
+    == qsum (effects d test).
+Proof.
+  intros vsqrt d test b sigma var_x tqs Hn HT Hb. rewrite (gen_tbrfit_estimate vsqrt d _ b sigma var_x tqs _ _ Hb).
+  exact (design_side_estimate_agrees d test Hn HT).
+Qed.
+Theorem C06_translated_design_side_scale_is_the_posterior_scale :
+  forall (vsqrt : Q -> Q) (d : list pt) T b sigma var_x tqs xt yt,
+    let n := Z.of_nat (length d) in
+    let r := gen_tbrfit QOps vsqrt T n (xbar d) (ybar d) b sigma var_x tqs xt yt in
+    sqrt_ok vsqrt (fit_arg T n ((xt - xbar d) * (xt - xbar d) / var_x)) ->
+    sigma * sigma == s2 d -> var_x == Sxx d / nQ d ->
+    ~ nQ d == 0 -> ~ Sxx d == 0 -> ~ inject_Z T == 0 ->
+    fit_scale_of r * fit_scale_of r == var_at d (inject_Z T) xt /\ fit_cihw_of r == tqs * fit_scale_of r.
+Proof.
+  cbv zeta. intros vsqrt d T b sigma var_x tqs xt yt Hs Hsig Hvar Hn Hx HT.
+  destruct (gen_tbrfit_scale_squared vsqrt d T b sigma var_x tqs xt yt Hs Hsig Hvar) as [H1 H2].
+  split; [|exact H2]. rewrite H1. exact (design_side_scale_agrees d (inject_Z T) xt Hn Hx HT).
+Qed.
+
 Print Assumptions C06_design_side_scale_agrees.
+Print Assumptions C06_translated_design_side_estimate_is_the_analysis_estimate.
+Print Assumptions C06_translated_design_side_scale_is_the_posterior_scale.
 Print Assumptions C06_design_side_estimate_agrees.
